@@ -63,7 +63,10 @@ TpCases == <<
   [kvs |-> << <<0,0,0,1,1,1>>, <<0,0,0,1,1,1>> >>,                     ps |-> <<2,2>>],
   [kvs |-> << <<0,0,1,2,2>>, <<0,0,1,1>>, <<0,0,1,1>> >>,              ps |-> <<1,1,1>>],
   [kvs |-> << <<0,0,1,2,2>>, <<0,0,1,2,3,3>> >>,                       ps |-> <<1,1>>],
-  [kvs |-> << <<0,0,1,2,2>>, <<0,0,1,2,2>>, <<0,0,1,2,3,3>> >>,        ps |-> <<1,1,1>>]
+  [kvs |-> << <<0,0,1,2,2>>, <<0,0,1,2,2>>, <<0,0,1,2,3,3>> >>,        ps |-> <<1,1,1>>],
+  \* twins: equal degree and number of knots in every direction, different breakpoints
+  [kvs |-> << <<0,0,1,3,3>>, <<0,0,2,3,3>> >>,                         ps |-> <<1,1>>],
+  [kvs |-> << <<0,0,0,1,3,3,3>>, <<0,0,0,2,3,3,3>>, <<0,0,0,1,2,2,2>> >>, ps |-> <<2,2,2>>]
 >>
 IdA(d) == [i \in 1..d |-> [j \in 1..d |-> IF i = j THEN One ELSE Zero]]
 IntMat(M) == [i \in 1..Len(M) |-> [j \in 1..Len(M[i]) |-> R(M[i][j])]]
